@@ -4,7 +4,9 @@
      add   p (token seq), c (rule record), err ("" when AddLocationConf returned nil)
      del   p
      match path, res (record returned by MatchStorageRule)
-     snap  got  = results of MatchStorageRule for every path of Probe, in order *)
+     snap  got  = results of MatchStorageRule for every path of Probe, in order
+     dump  rules = ToProto().Locations as [p (token seq), c (rule record)]
+     reload err  = ToText into a buffer, LoadFromBytes into a fresh FilerConf which replaces the old one *)
 EXTENDS PathRules, TraceKit
 CONSTANT Probe
 tvars == <<vars, kitvars>>
@@ -19,6 +21,8 @@ TSnap == /\ IsEvent("snap") /\ Strict
          /\ Len(Ev.got) = Len(Probe)
          /\ \A i \in 1..Len(Probe) : SameConf(Ev.got[i], Resolve(rules, Probe[i]))
          /\ UNCHANGED vars
-TraceNext == TraceReset \/ TraceSkip \/ TAdd \/ TDel \/ TMatch \/ TSnap
+TDump == IsEvent("dump") /\ Strict /\ Dump(Ev.rules) /\ UNCHANGED hist
+TReload == IsEvent("reload") /\ Strict /\ Ev.err = "" /\ Reload /\ UNCHANGED hist
+TraceNext == TraceReset \/ TraceSkip \/ TAdd \/ TDel \/ TMatch \/ TSnap \/ TDump \/ TReload
 TraceSpec == TraceInit /\ [][TraceNext]_tvars
 =============================================================================
